@@ -462,14 +462,16 @@ def _update_axis(
     )
   eigvecs = u[:, :k]
 
-  mask = deflated > 0
-
-  alpha = jnp.asarray(-1.0 / (2 * update.ndim), dtype=jnp.float32)
-  eigvecs *= mask
   if options.relative_epsilon and options.epsilon > 0:
     eps = jnp.max(undeflated) * options.epsilon
   else:
     eps = options.epsilon
+  # Keep a direction only if the value inverted below is positive: the square
+  # of a tiny positive singular value underflows to zero when epsilon is 0.
+  mask = jnp.logical_and(deflated > 0, undeflated + eps > 0)
+
+  alpha = jnp.asarray(-1.0 / (2 * update.ndim), dtype=jnp.float32)
+  eigvecs *= mask
   inv_eigvals = jnp.where(mask, (undeflated + eps) ** alpha, 0.0)
   eigvals = deflated * mask
   inv_tail = jnp.where(tail > 0, (tail + eps) ** alpha, 0.0)
